@@ -348,11 +348,7 @@ def run(prop: str, tier: str) -> int:
             f.write(json.dumps(ev) + "\n")
     n = len(events)
     cfg = "CONSTANT TLDs <- TldSet\nSPECIFICATION Spec\nCHECK_DEADLOCK FALSE\n"
-    r = tlc.run("NetTrace", cfg, env={"TRACE_FILE": path_, "TLD_FILE": tld_file}, timeout=3000, heap="12g")
-    v = r.verdicts()
-    judged = [t for t, cl in v.items() if "ACCEPT" in cl or "REJECT" in cl]
-    if not r.completed or len(judged) != n:
-        raise MachineryError(f"NetTrace: {len(judged)}/{n} judged\n" + r.diagnosis())
+    v, r = tlc.run_trace("NetTrace", cfg, path_, n, env={"TLD_FILE": tld_file}, max_lines=40000, max_bytes=40_000_000)
     na = sum(1 for cl in v.values() if "n/a" in cl)
     for t, cl in v.items():
         for c in cl:
